@@ -7,7 +7,7 @@ import (
 	zz "rare/pkg/zzverif"
 )
 
-var zzHarnesses = map[string]func(){"H12Match": H12Match, "H12ICase": H12ICase, "H12Errors": H12Errors, "H12Hold": H12Hold}
+var zzHarnesses = map[string]func(){"H12Match": H12Match, "H12ICase": H12ICase, "H12Errors": H12Errors, "H12Hold": H12Hold, "H12Index": H12Index}
 
 type zzTok struct {
 	name  string
@@ -276,5 +276,31 @@ func H12Hold() {
 	inst.FindSubmatchIndex(l3)
 	zz.Assert(zzSameInts(r1, c1), "first result altered by later matches")
 	zz.Assert(zzSameInts(r2, c2), "second result altered by later matches")
+	zz.Reached()
+}
+
+// H12Index: the ignore-case search finds the FIRST position at which the
+// (already lowered) literal occurs in the ASCII-folded line, for literals up
+// to 3 bytes (self-overlapping ones such as "aab", "-->" included).
+func H12Index() {
+	sub := zz.Bytes(zz.Len(zzIdxLit))
+	for i := range sub {
+		zz.Assume(sub[i] < 'A' || sub[i] > 'Z') // the caller passes the lowered literal
+	}
+	s := zz.Bytes(zz.Len(zzIdxLine))
+	low := zzLowerASCII(s)
+	want := -1
+	for i := 0; i+len(sub) <= len(low) && want < 0; i++ {
+		ok := true
+		for j := 0; j < len(sub); j++ {
+			if low[i+j] != sub[j] {
+				ok = false
+			}
+		}
+		if ok {
+			want = i
+		}
+	}
+	zz.Assert(indexIgnoreCase(string(s), string(sub)) == want, "ignore-case search does not return the first occurrence of the literal in the folded line")
 	zz.Reached()
 }
